@@ -55,6 +55,12 @@ class Ctx:
             m = re.fullmatch(r"(-?[\d.]+(?:e-?\d+)?)f64", c)
             if m:
                 return f"((_ to_fp 11 53) RNE {m.group(1)})", "F"
+            fc = {"f64>::INFINITY": "(_ +oo 11 53)", "f64>::NEG_INFINITY": "(_ -oo 11 53)", "f64>::NAN": "(_ NaN 11 53)",
+                  "f64>::MAX": "(fp #b0 #b11111111110 #xfffffffffffff)", "f64>::MIN_POSITIVE": "(fp #b0 #b00000000001 #x0000000000000)",
+                  "f64>::EPSILON": "(fp #b0 #b01111001011 #x0000000000000)"}
+            for k_, v_ in fc.items():
+                if c.endswith(k_) or c.endswith(k_.replace("f64>", "f64")):
+                    return v_, "F"
             return self.sym("const_" + c, want or "V"), want or "V"
         if k == "sym":
             so = self.sym_sorts.get(t[1], want or "V")
@@ -142,7 +148,7 @@ class Ctx:
 
     RET = {
         "StrategiesInfo::regret": "F", "StrategiesInfo::player_utility": "F", "StrategiesInfo::player_regret": "F",
-        "eq": "Bool", "ends_with": "Bool", "sum::<f64>": "F", "f64>::max": "F",
+        "eq": "Bool", "ends_with": "Bool", "sum::<f64>": "F", "f64>::max": "F", "is_finite": "Bool", "::len": "Int",
     }
 
     def ret_sort(self, fname):
